@@ -1,6 +1,7 @@
 //! C16 — clones and separate instances are independent, deterministic values.
 //! (relative; interleaving monitor + real threads)
 
+use super::common::{mode_data, mode_iv};
 use crate::ctx::Ctx;
 use crate::wl;
 use bmv_core::subj::*;
@@ -101,6 +102,16 @@ impl Obj {
             Obj::Buf(o) => o.poke(off, mask),
             Obj::Stream(o) => o.poke(off, mask),
             Obj::Core(o) => o.poke(off, mask),
+        }
+    }
+    /// `dst.clone_from(&src)`; false when unsupported (different kinds / not Clone)
+    pub fn clone_from(&mut self, src: &Obj) -> bool {
+        match (self, src) {
+            (Obj::Blk(d), Obj::Blk(s)) => d.clone_from_obj(s.as_ref()),
+            (Obj::Buf(d), Obj::Buf(s)) => d.clone_from_obj(s.as_ref()),
+            (Obj::Stream(d), Obj::Stream(s)) => d.clone_from_obj(s.as_ref()),
+            (Obj::Core(d), Obj::Core(s)) => d.clone_from_obj(s.as_ref()),
+            _ => false,
         }
     }
     pub fn try_clone(&self) -> Option<Obj> {
@@ -208,10 +219,11 @@ fn pool(ctx: &Ctx) -> Vec<Maker> {
 }
 
 pub fn run(ctx: &mut Ctx) {
-    match ctx.rng.below(10) {
+    match ctx.rng.below(12) {
         0..=5 => clone_interleave(ctx),
         6..=7 => two_instances(ctx),
         8 => cts_clone(ctx),
+        9..=10 => clone_from(ctx),
         _ => threads(ctx),
     }
 }
@@ -234,11 +246,13 @@ fn clone_interleave(ctx: &mut Ctx) {
     ctx.subject(&name);
     let b = ctx.cfg.bs;
     let w = ctx.cfg.par.max(1);
-    let (iv, _) = wl::iv(&mut ctx.rng, mk.iv_len(b));
+    let (iv, _) = mode_iv(ctx, mk.iv_len(b));
     let key = ctx.key.clone();
-    let n1 = ctx.rng.range(0, 5);
-    let n2 = ctx.rng.range(1, 6);
-    let n3 = ctx.rng.range(1, 6);
+    // rarely: hundreds of operations before / after the clone
+    let long = ctx.rng.chance(1, 80);
+    let n1 = if long { ctx.rng.range(100, 300) } else { ctx.rng.range(0, 5) };
+    let n2 = if long { ctx.rng.range(50, 150) } else { ctx.rng.range(1, 6) };
+    let n3 = if long { ctx.rng.range(50, 150) } else { ctx.rng.range(1, 6) };
     let h1: Vec<Op> = (0..n1).map(|_| mk.gen_op(&mut ctx.rng, b, w)).collect();
     let h2: Vec<Op> = (0..n2).map(|_| mk.gen_op(&mut ctx.rng, b, w)).collect();
     let h3: Vec<Op> = (0..n3).map(|_| mk.gen_op(&mut ctx.rng, b, w)).collect();
@@ -297,6 +311,70 @@ fn clone_interleave(ctx: &mut Ctx) {
     }
 }
 
+/// `dst.clone_from(&src)` where dst was built with another key / IV and has its own history:
+/// afterwards dst must be what `src.clone()` would be, and src must be unaffected
+fn clone_from(ctx: &mut Ctx) {
+    let p = pool(ctx);
+    if p.is_empty() {
+        return;
+    }
+    let mk = ctx.rng.pick(&p).clone();
+    let name = format!("{}/clone_from", mk.name());
+    ctx.subject(&mk.name());
+    let b = ctx.cfg.bs;
+    let w = ctx.cfg.par.max(1);
+    let (iv_src, _) = mode_iv(ctx, mk.iv_len(b));
+    let key_src = ctx.key.clone();
+    // the destination differs in key, IV or both, and has its own history
+    let (key_dst, iv_dst) = match ctx.rng.below(3) {
+        0 => (key_src.clone(), ctx.rng.bytes(mk.iv_len(b))),
+        1 => (ctx.rng.bytes(key_src.len()), iv_src.clone()),
+        _ => (ctx.rng.bytes(key_src.len()), ctx.rng.bytes(mk.iv_len(b))),
+    };
+    let hs: Vec<Op> = (0..ctx.rng.range(0, 4)).map(|_| mk.gen_op(&mut ctx.rng, b, w)).collect();
+    let hd: Vec<Op> = (0..ctx.rng.range(0, 4)).map(|_| mk.gen_op(&mut ctx.rng, b, w)).collect();
+    let h2: Vec<Op> = (0..ctx.rng.range(1, 5)).map(|_| mk.gen_op(&mut ctx.rng, b, w)).collect();
+    let h3: Vec<Op> = (0..ctx.rng.range(1, 5)).map(|_| mk.gen_op(&mut ctx.rng, b, w)).collect();
+    ctx.note("src_history", J::Arr(hs.iter().map(|o| J::s(o.describe())).collect()));
+    ctx.note("dst_history_before_clone_from", J::Arr(hd.iter().map(|o| J::s(o.describe())).collect()));
+    ctx.note("after_on_src", J::Arr(h2.iter().map(|o| J::s(o.describe())).collect()));
+    ctx.note("after_on_dst", J::Arr(h3.iter().map(|o| J::s(o.describe())).collect()));
+    let r = guard(|| {
+        let mut src = mk.make(&key_src, &iv_src);
+        for op in &hs {
+            src.step(op);
+        }
+        let mut dst = mk.make(&key_dst, &iv_dst);
+        for op in &hd {
+            dst.step(op);
+        }
+        if !dst.clone_from(&src) {
+            return None;
+        }
+        // dst first, then src: neither may disturb the other
+        let rd: Vec<Vec<u8>> = h3.iter().map(|op| dst.step(op)).collect();
+        let rs: Vec<Vec<u8>> = h2.iter().map(|op| src.step(op)).collect();
+        Some((rs, rd, replay(&mk, &key_src, &iv_src, &hs, &h2), replay(&mk, &key_src, &iv_src, &hs, &h3)))
+    });
+    ctx.st.api_calls += (hs.len() + hd.len() + 2 * h2.len() + 2 * h3.len() + 1) as u64;
+    match r {
+        Err(p) => ctx.panic_violation(&name, &p),
+        Ok(None) => ctx.st.count("skipped.clone_from-unsupported"),
+        Ok(Some((rs, rd, ws, wd))) => {
+            if rd != wd {
+                return ctx.violation(&format!("C16/clone_from/{}", mk.name()), "after dst.clone_from(&src), dst does not behave like a fresh replay of src's history".into());
+            }
+            if rs != ws {
+                return ctx.violation(&format!("C16/clone_from-src/{}", mk.name()), "src changed behaviour after being the source of clone_from".into());
+            }
+            ctx.st.count("ok.clone_from");
+            ctx.st.count(&format!("ok.clone_from.{}", mk.name()));
+            ctx.nontrivial = true;
+            ctx.cell(format!("clone_from|{}|{}|hs={}|hd={}", mk.name(), ctx.cfg.name, hs.len().min(2), hd.len().min(2)));
+        }
+    }
+}
+
 /// two separately constructed instances (same key/IV, or different) never influence each other
 fn two_instances(ctx: &mut Ctx) {
     let mut p = pool(ctx);
@@ -313,7 +391,7 @@ fn two_instances(ctx: &mut Ctx) {
     let b = ctx.cfg.bs;
     let w = ctx.cfg.par.max(1);
     let same = ctx.rng.coin();
-    let (iv1, _) = wl::iv(&mut ctx.rng, mk1.iv_len(b));
+    let (iv1, _) = mode_iv(ctx, mk1.iv_len(b));
     let iv2 = if same && mk1.iv_len(b) == mk2.iv_len(b) { iv1.clone() } else { ctx.rng.bytes(mk2.iv_len(b)) };
     let key1 = ctx.key.clone();
     let key2 = if same { key1.clone() } else { ctx.rng.bytes(key1.len()) };
@@ -370,7 +448,7 @@ fn cts_clone(ctx: &mut Ctx) {
     let name = format!("{}/clone", d.var.name());
     ctx.subject(&name);
     let b = ctx.cfg.bs;
-    let (iv, _) = wl::iv(&mut ctx.rng, b);
+    let (iv, _) = mode_iv(ctx, b);
     let len = b + ctx.rng.below(4 * b);
     let m1 = ctx.rng.bytes(len);
     let m2 = ctx.rng.bytes(len);
@@ -413,7 +491,7 @@ fn threads(ctx: &mut Ctx) {
     ctx.subject(&name);
     let b = ctx.cfg.bs;
     let w = ctx.cfg.par.max(1);
-    let (iv, _) = wl::iv(&mut ctx.rng, mk.iv_len(b));
+    let (iv, _) = mode_iv(ctx, mk.iv_len(b));
     let key = ctx.key.clone();
     let n1 = ctx.rng.range(0, 3);
     let h1: Vec<Op> = (0..n1).map(|_| mk.gen_op(&mut ctx.rng, b, w)).collect();
